@@ -275,6 +275,15 @@ def parse_file(path, wanted=None):
     n = len(lines)
     while i < n:
         ln = lines[i]
+        if ln.startswith("const ") and ln.endswith("= {") and "::promoted[" in ln:
+            j = i + 1
+            while j < n and lines[j] != "}":
+                j += 1
+            mm = re.match(r"^const (.+?::promoted\[\d+\]): (.+) = \{$", ln)
+            if mm:
+                funcs.setdefault("const " + mm.group(1), []).append(("const " + mm.group(1), "", mm.group(2), lines[i + 1:j]))
+            i = j + 1
+            continue
         if ln.startswith("fn ") and ln.endswith("{"):
             j = i + 1
             while j < n and lines[j] != "}":
